@@ -12,6 +12,7 @@ prop = None
 write = '--write' in sys.argv
 require = '--require' in sys.argv
 lost = []
+errors = []
 if '--prop' in sys.argv:
     prop = sys.argv[sys.argv.index('--prop') + 1]
 tmp = tempfile.mkdtemp(prefix='govc-sweep-')
@@ -48,14 +49,24 @@ def one(d):
         for c in checks:
             if prop and c != prop:
                 continue
-            out = subprocess.run([os.path.join(V, 'bin/govc'), '-repo', repo, '-prop', c, '-tier', 'quick', '-out', os.path.join(tmp, f'ev{w}.json'),
-                                  '-known', os.path.join(V, 'KNOWN_FINDINGS.txt'), '-replays', os.path.join(tmp, f'replays{w}')], capture_output=True, text=True).stdout
+            for attempt in range(3):
+                pr = subprocess.run([os.path.join(V, 'bin/govc'), '-repo', repo, '-prop', c, '-tier', 'quick', '-out', os.path.join(tmp, f'ev{w}.json'),
+                                     '-known', os.path.join(V, 'KNOWN_FINDINGS.txt'), '-replays', os.path.join(tmp, f'replays{w}')], capture_output=True, text=True)
+                out = pr.stdout
+                if pr.returncode in (0, 1) and 'property=' in out:
+                    break  # a verdict; anything else (engine error, killed) is retried, never read as "missed"
+            else:
+                with lock:
+                    print(meta['id'], 'ENGINE-ERROR running', c, (pr.stderr or out)[-300:].replace('\n', ' | '), flush=True)
+                errors.append((meta['id'], c))
+                continue
             vs = [l for l in out.split('\n') if l.startswith('VIOLATION')]
             if vs:
                 obl = [x.split('=', 1)[1] for l in vs for x in l.split() if x.startswith('obligation=')]
                 conf = any('replayed=confirmed' in l for l in vs)
                 detected.append({'check': c, 'obligations': obl[:4], 'replayed_confirmed': conf})
-        subprocess.run(['patch', '-p1', '-R', '-s', '-d', repo, '-i', patch], capture_output=True)
+        # restore the scratch copy from /repo itself (reversing the patch can leave rejects behind)
+        subprocess.run(['rsync', '-a', '--delete', '--exclude', '.git', '/repo/', repo + '/'])
         with lock:
             if require:
                 was = {x['check'] for x in meta.get('detected_by', [])}
@@ -96,5 +107,7 @@ if '--evidence' in sys.argv:
         print('WARNING: could not update evidence:', e)
 for sid, c in lost:
     print(f'ENGINE-ERROR: seeded change {sid} is recorded as detected by check {c} but is no longer detected')
-if lost:
+for sid, c in errors:
+    print(f'ENGINE-ERROR: check {c} gave no verdict on seeded change {sid}')
+if lost or errors:
     sys.exit(2)
